@@ -76,13 +76,17 @@ def impl_run(case, nops=None):
     init = snapshot(w)
     out = []
     ops = case["ops"] if nops is None else case["ops"][:nops]
+    sources = {}      # a source with the same content is the same Widget object throughout one sequence
     for op in ops:
         try:
             if op[0] == "draw":
-                if op[2] == "default":
-                    s = Widget(default="\n".join(op[1]))
+                key = (op[2], tuple(op[1]))
+                if key in sources:
+                    s = sources[key]
+                elif op[2] == "default":
+                    s = sources[key] = Widget(default="\n".join(op[1]))
                 else:
-                    s = Widget()
+                    s = sources[key] = Widget()
                     s._buffer = [list(x) for x in op[1]]
                 kw = {}
                 if op[3] is not None:
@@ -290,8 +294,17 @@ def rand_case(rng):
     maxw = None if rng.random() < 0.5 else rng.choice([0, 1, 3, 5, 8, 10, 12, 14])
     rows = rand_rows(rng) if rng.random() < 0.9 else []
     cur = [rng.randrange(0, 8), rng.randrange(0, 8)] if rng.random() < 0.6 else [0, 0]
-    return dict(default="\n".join(rows), cursor=cur, maxw=maxw,
-                ops=[rand_op(rng, maxw) for _ in range(rng.randrange(1, 5))])
+    ops = [rand_op(rng, maxw) for _ in range(rng.randrange(1, 5))]
+    if rng.random() < 0.25:
+        # the SAME source widget drawn at two places, then something written over one of the copies: the source
+        # object is reused by the harness when its content is identical (aliasing must not leak)
+        src = [r for r in rand_rows(rng) if r] or ["ab", "cd"]
+        c0 = rng.choice([0, 0, 1, 3])
+        r2 = rng.randrange(len(src), len(src) + 4)
+        ops = [["draw", src, "raw", 0, c0, rng.random() < 0.5], ["draw", src, "raw", r2, c0, rng.random() < 0.5],
+               ["write", rng.choice(["Z", "QQ", "x\ny"]), rng.choice([0, r2]), c0 + rng.choice([0, 1]), None, rng.random() < 0.5],
+               rand_op(rng, maxw), ["draw", src, "raw", r2 + len(src) + 1, 0, False]]
+    return dict(default="\n".join(rows), cursor=cur, maxw=maxw, ops=ops)
 
 
 def shapes(maxrows, maxlen, letters):
